@@ -12,15 +12,15 @@ from . import driver, known
 from .driver import VERIF
 
 ENGINES = {
-    "C07": ["simdst.engines.c07_pool", "simdst.engines.c07_hist"],
+    "C07": ["simdst.engines.c07_pool", "simdst.engines.c07_hist", "simdst.engines.c07_threads"],
     "C08": ["simdst.engines.c08_pool", "simdst.engines.c08_hist", "simdst.engines.c08_threads"],
-    "C09": ["simdst.engines.c09_hist", "simdst.engines.c09_hedge"],
+    "C09": ["simdst.engines.c09_hist", "simdst.engines.c09_hedge", "simdst.engines.c09_threads"],
     "C12": ["simdst.engines.c12_hist", "simdst.engines.c12_threads"],
     "C14": ["simdst.engines.c14_sk"],
     "C19": ["simdst.engines.c19_rand"],
 }
 
-ENGINE_NAMES = {"simdst.engines.c07_pool": "A", "simdst.engines.c07_hist": "B", "simdst.engines.c08_pool": "A8", "simdst.engines.c08_hist": "B8", "simdst.engines.c09_hist": "B9", "simdst.engines.c09_hedge": "B9h", "simdst.engines.c12_hist": "H", "simdst.engines.c14_sk": "K", "simdst.engines.c19_rand": "R", "simdst.engines.c08_threads": "T8", "simdst.engines.c12_threads": "HT"}
+ENGINE_NAMES = {"simdst.engines.c07_pool": "A", "simdst.engines.c07_hist": "B", "simdst.engines.c08_pool": "A8", "simdst.engines.c08_hist": "B8", "simdst.engines.c09_hist": "B9", "simdst.engines.c09_hedge": "B9h", "simdst.engines.c12_hist": "H", "simdst.engines.c14_sk": "K", "simdst.engines.c19_rand": "R", "simdst.engines.c08_threads": "T8", "simdst.engines.c12_threads": "HT", "simdst.engines.c07_threads": "T7", "simdst.engines.c09_threads": "T9"}
 
 # Probes whose firing depends on what the LIBRARY does (which seam it uses, whether a solver returned a value)
 # rather than on what the harness generates.  A legitimate refactor may stop reaching a seam (e.g. another
